@@ -45,7 +45,11 @@ def generate(rng, tier):
     be = W.gen_backend(rng, ant, el)
     # SCALE: production-sized blocks - one sub-block of more than 2**22 real samples, the block not a whole multiple of
     # any round size (caps and chunking inside a block only engage there, and their remainder handling)
-    heavy = rng.random() < (0.01 if tier == "quick" else 0.05)
+    r_ = rng.random()
+    heavy = r_ < (0.01 if tier == "quick" else 0.05)
+    medium = (not heavy) and r_ < (0.04 if tier == "quick" else 0.12)       # one sub-block of 1-2.5 million real samples
+    if medium:
+        heavy = True
     if heavy:
         for _ in range(8):
             if ant["n_ant"] * ant["pols"] <= 1:
@@ -54,7 +58,7 @@ def generate(rng, tier):
         el["T"], el["B"] = 4, 64
         be = W.gen_backend(rng, ant, el)
         be["num_chans"], be["start_chan"] = rng.choice([1, 2, 3]), rng.choice([0, 5])
-        be["W"] = rng.choice([24576, 24580, 30001, 40985])
+        be["W"] = rng.choice([24576, 24580, 30001, 40985]) if not medium else rng.choice([4100, 6000, 9001, 4096 + 32])
         be["spb"] = be["W"] * el["T"]
         be["block_size"] = be["spb"] * ant["n_ant"] * be["num_chans"] * (2 * ant["pols"] * el["bits"] // 8)
         be["num_subblocks"] = rng.choice([1, 1, 2])
